@@ -278,7 +278,6 @@ func printSummary(e *Engine, i int, s Summary, verbose bool) {
 	fmt.Printf("  return: %s  @%s\n", strings.Join(rs, " , "), e.posStr(s.RetPos))
 }
 
-
 func exitWith(code int) {
 	pprof.StopCPUProfile()
 	os.Exit(code)
